@@ -209,8 +209,6 @@ def exec_case(case):
         shutil.rmtree(tmp, ignore_errors=True)
     if not stl:
         g["m"]["att"] = g["m"]["att"]
-    g.pop("m0", None)
-    g.pop("att0", None)
     return {"id": case["id"], "given": g, "events": events}
 
 
